@@ -628,22 +628,21 @@ func lexInsideTag(l *lexer) stateFn {
 
 func lexNegative(l *lexer) stateFn {
 	// is it unary or binary op?
-	// unary if it starts a group ('{' or '(') or an op came just before.
-	var lastType = l.lastEmit.typ
-	if lastType == itemInvalid ||
-		lastType.isOp() ||
-		lastType == itemLeftDelim ||
-		lastType == itemCase ||
-		lastType == itemComma ||
-		lastType == itemLeftParen {
+	// binary if the previous token can end an operand (a literal, an identifier
+	// or data reference, a closing bracket or parenthesis); unary anywhere else.
+	switch l.lastEmit.typ {
+	case itemNull, itemBool, itemInteger, itemFloat, itemString,
+		itemIdent, itemDollarIdent, itemDotIdent, itemQuestionDotIdent,
+		itemDotIndex, itemQuestionDotIndex,
+		itemRightBracket, itemRightParen:
+		l.emit(itemSub)
+	default:
 		// is it a negative number?
 		if l.peek() >= '0' && l.peek() <= '9' {
 			l.backup()
 			return lexNumber
 		}
 		l.emit(itemNegate)
-	} else {
-		l.emit(itemSub)
 	}
 	return lexInsideTag
 }
